@@ -17,6 +17,8 @@ def gen(rng):
         "N": (typedef("N", [field("a", nm("u16")), field("b", nm("u16"))], False), 4, 2),
         "W": (typedef("W", [field("a", nm("u64"))], False), 8, 8),
         "Z": (typedef("Z", [], False), 0, ptr),
+        # a base with a vftable of its own: a derived type with a vftable block shares its pointer
+        "V": (typedef("V", [field("k", nm("u32"))], True), 2 * ptr, ptr),
     }
     helpers["N"][0]["align"] = 2
     used = set()
@@ -25,10 +27,21 @@ def gen(rng):
     vft = rng.random() < 0.25
     cur = ptr if vft else 0
     maxal = ptr if vft else 1
+    # now and then one or two leading base sub-objects
+    bases = []
+    if rng.random() < 0.25:
+        bases = [rng.choice(["N", "W", "V"]) for _ in range(rng.randint(1, 2))]
+        if vft and bases[0] == "V":
+            cur = 0
     nf = rng.randint(1, 12)
     for i in range(nf):
         r = rng.random()
-        if r < 0.45:
+        if i < len(bases):
+            h = bases[i]
+            used.add(h)
+            ty, sz, al = nm(h), helpers[h][1], helpers[h][2]
+            plain = False
+        elif r < 0.45:
             n, sz = rng.choice(SCALARS)
             ty, al = nm(n), sz
         elif r < 0.6:
@@ -67,12 +80,15 @@ def gen(rng):
         else:
             addr = rng.randint(0, max(cur + 8, 8))
             cur = max(cur, addr)
-        name = "_" if (rng.random() < 0.08 and ty.get("k") != "nm") else f"f{i}"
-        fields.append(field(name, ty, addr=addr))
+        name = "_" if (rng.random() < 0.08 and ty.get("k") != "nm" and i >= len(bases)) else f"f{i}"
+        fields.append(field(name, ty, base=i < len(bases), addr=addr))
         cur = (addr if addr != NONE else cur) + sz
         if sz or ty.get("k") not in ("arr", "unk"):
             maxal = max(maxal, al)
     t = typedef("T", fields, vft)
+    if vft and rng.random() < 0.08:
+        # a vftable block that is not the first statement (rejected today)
+        t["vft"]["pos"] = rng.randint(1, len(fields))
     q = rng.random()
     natural_al = max(maxal, ptr) if len(fields) + vft > 1 else maxal
     if q < 0.5:
@@ -93,7 +109,7 @@ def gen(rng):
         t["size"] = cur + rng.choice([0, 1, 4, 8, -4])
         if t["size"] < 0:
             t["size"] = 0
-    defs = [helpers[h][0] for h in ("N", "W", "Z") if h in used]
+    defs = [helpers[h][0] for h in ("N", "W", "Z", "V") if h in used]
     if "E" in used:
         defs.append({"k": "enum", "name": "E", "vis": "pub", "doc": [], "base": nm("u16"),
                      "vars": [{"name": "A", "val": {"a": "none", "d": 0}, "dflt": False}, {"name": "B", "val": {"a": "none", "d": 0}, "dflt": False}],
@@ -103,7 +119,7 @@ def gen(rng):
     m = {"path": ["m"], "doc": [], "uses": [], "exts": [{"name": "X", "size": 8, "align": 4}] if "X" in used else [],
          "evals": [], "defs": defs, "impls": [], "backs": []}
     # a packed type that embeds another emitted struct is known finding K05 territory: keep it out
-    if t["packed"] and (used & {"N", "W", "Z", "X"}):
+    if t["packed"] and (used & {"N", "W", "Z", "X", "V"}):
         t["packed"] = False
     return {"ptr": ptr, "mods": [m]}, plain and not vft or plain
 
